@@ -68,6 +68,41 @@ def sym_isinstance(obj, cls):
     return isinstance(obj, classes)
 
 
+class _IdPool:
+    """Model of id(): CPython only guarantees distinct ids for objects whose lifetimes overlap.  This allocator is
+    legal and adversarial: it hands out the smallest free number and re-uses a number as soon as its object has
+    died, so code that keys state by id() of temporaries meets the collisions the real allocator may produce."""
+
+    def __init__(self):
+        self.live = {}      # real id -> (number, weakref)
+        self.free = []
+        self.next = 1
+
+    def __call__(self, obj):
+        import weakref
+        rid = builtins.id(obj)
+        ent = self.live.get(rid)
+        if ent is not None and ent[1]() is obj:
+            return ent[0]
+        try:
+            num = min(self.free) if self.free else self.next
+            wr = weakref.ref(obj, lambda _r, rid=rid, num=num: self._release(rid, num))
+        except TypeError:
+            return rid
+        if self.free and num in self.free:
+            self.free.remove(num)
+        else:
+            self.next += 1
+        self.live[rid] = (num, wr)
+        return num
+
+    def _release(self, rid, num):
+        ent = self.live.get(rid)
+        if ent is not None and ent[0] == num:
+            del self.live[rid]
+        self.free.append(num)
+
+
 def sym_abs(x):
     return abs(x)
 
@@ -131,6 +166,7 @@ class Twin:
         self.bi["int"] = sym_int
         self.bi["float"] = sym_float
         self.bi["open"] = self._open
+        self.bi["id"] = _IdPool()
         self.entered = set()
 
     # -- virtual open() for the converter / loader (text json + binary opf files)
